@@ -45,7 +45,7 @@ func (c *Ctx) ruleDisabled(rule string) {
 			e := core.RetVal(r, ei)
 			switch {
 			case errDefinitelyNonNil(e, r.Block()):
-			case enabled[r.Block()]:
+			case enabled[r.Key()]:
 			case c.isEnablednessHelperCall(e, fn, memo):
 			case schemaModeAt(r.Block(), fn):
 			default:
@@ -98,7 +98,7 @@ func (c *Ctx) ruleDisabled(rule string) {
 				continue
 			}
 			n++
-			if !(enabled[r.Block()] || c.isEnablednessHelperCall(e, fn, memo) || neverSupplied[r.Block()]) {
+			if !(enabled[r.Key()] || c.isEnablednessHelperCall(e, fn, memo) || neverSupplied[r.Key()]) {
 				bad = c.M.InstrPos(r)
 			}
 		}
@@ -279,7 +279,7 @@ func (c *Ctx) isEnablednessHelperCall(v ssa.Value, fn *ssa.Function, memo map[*s
 	good := true
 	for _, r := range core.ReturnsOf(h) {
 		e := core.RetVal(r, 0)
-		if errDefinitelyNonNil(e, r.Block()) || enabled[r.Block()] || c.isEnablednessHelperCall(e, h, memo) {
+		if errDefinitelyNonNil(e, r.Block()) || enabled[r.Key()] || c.isEnablednessHelperCall(e, h, memo) {
 			continue
 		}
 		good = false
